@@ -27,7 +27,7 @@ REGISTRY = {
             "C06b_stack_only_cycles (the RefCell bookkeeping only ever turns a result into a cycle error), C06b_order_independent / "
             "C06b_result_unique (the order in which registered paths are visited does not change a successful result), C06b_sound (for "
             "every project whose values are parses of printed well-formed sources, every final value denotes the source-level inlining "
-            "semantics xdenote, inherits walks included). The same predicate spec_C06 (source ASTs -> expected pieces) is evaluated "
+            "semantics xdenote, inherits walks included); Props/C06c.v: C06c_spec bridges the executable predicate to these theorems (for every well-formed case the model's own output satisfies spec_C06), C06c_first_error (the driver reports the first failing value in sorted order); C06_args_locale_old_refuted (nested references of an argument denote in the locale the reference is written in; the pre-fix code resolved them in the locale a null target is inherited from). The same predicate spec_C06 (source ASTs -> expected pieces) is evaluated "
             "on the real loader's final values for generated acyclic reference graphs (chains, arguments with "
             "variables / nested $t / numbers / bools, namespaces, subkeys, nulls with inherits) and planted cycles / missing / group targets.",
     "design_ref": "DESIGN.md §5 C06",
